@@ -31,6 +31,7 @@ def punishedIds (old : State) (bi : BeginInfo) : List Nat :=
     match findFirst (fun v => v.tmAddr == a) old.validators with
     | none => none
     | some v =>
+      if v.toDrop then none else
       match findFirst (fun c => c.pubkey == v.pubkey) old.candidates with
       | some c => if c.status == 2 then some c.id else none
       | none => none)
@@ -78,6 +79,14 @@ def beginMonitor (unbond : Nat) (old new : State) (bi : BeginInfo) (balDeltas : 
       | some c' => if !c'.stakes.isEmpty && c'.stakes.any (fun s => s.value != 0) then out := s!"VIOL C18 punished-candidate-keeps-stakes cand={cid}" :: out
       | none => pure ()
   return out
+
+/-- C16, purely observational: BeginBlock may change nothing but the *value* of a frozen fund that is not due yet — its height,
+    owner, coin, source candidate and move target stay what they were when the fund was created. -/
+def pendingIdentityMonitor (h : Nat) (old new : State) : List String :=
+  old.frozen.filterMap (fun f =>
+    if f.height > h && !(new.frozen.any (fun g => g.height == f.height && g.addr == f.addr && g.coin == f.coin && g.candId == f.candId && g.moveTo == f.moveTo && g.candKey == f.candKey))
+    then some s!"VIOL C16 pending-fund-identity-changed height={f.height} addr={f.addr} coin={f.coin} cand={f.candId} moveTo={f.moveTo} value={f.value}"
+    else none)
 
 /-- Monitor for the accrual part of EndBlock (C19): who accrues and how much. `paid` = a payout block (accumulators are reset). -/
 def endMonitor (old new : State) (signed : List Nat) (capReached : Bool) (payout : Bool) : List String := Id.run do
